@@ -45,7 +45,9 @@ Fixpoint mono (l : list Z) : bool :=
 
 (* ------------------------------------------------------------------ *)
 (* df_util.split_delay_tags, first loop: every top-level Delay group of row i is removed from the
-   row and appended as a new row with onset  value_as_default_unit() + onsets[i]. *)
+   row and appended as a new row with onset  value_as_default_unit() + onsets[i].  A Delay group whose
+   value has no conversion to seconds, or whose value/onset is not a number, stays in its row (current
+   /repo, fix commits ef31cc7 and e4bce88): such a group is an item with [it_delay = None] here. *)
 Definition has_delay (it : item) : bool :=
   match it_delay it with Some _ => true | None => false end.
 
@@ -63,9 +65,10 @@ Fixpoint split_rows (rows : list row) : list row * list row :=
        map (fun it => mkRow (delay_of it + r_onset r)%Z [it]) del ++ appended)
   end.
 
-(* df_util.sort_dataframe_by_onsets: DataFrame.sort_values(by onset).  Modelled as a STABLE
-   insertion sort; pandas' default kind is numpy quicksort whose tie order is unspecified (the
-   harness therefore compares the contents of one time point as multisets). *)
+(* df_util.sort_dataframe_by_onsets: DataFrame.sort_values(by onset, kind='stable') -- a STABLE sort
+   in the current /repo (since fix commit 29fcd01; before it the default numpy quicksort left the
+   order of equal onsets unspecified).  Modelled as a stable insertion sort; the harness compares the
+   contents of a time point as sequences. *)
 Fixpoint insert_row (r : row) (l : list row) : list row :=
   match l with
   | [] => [r]
@@ -148,7 +151,9 @@ Definition temporal_step (i : nat) (t : Z) (st : estate) (it : item) : res estat
   let '(hp, od) := st in
   match it_kind it with
   | KOnset a =>
-      (* if anchor in onset_dict or def_tag == Offset: pop + set_end *)
+      (* if anchor in onset_dict or def_tag.short_base_tag == Offset: pop + set_end
+         (markers are compared by short base tag since fix commit 4d37e17, so a schema namespace
+         prefix on the tags makes no difference; the kind of an item is that short base tag) *)
       let* (hp1, od1) :=
         (if od_mem a od
          then let* (p, od') := od_pop a od in Ok (set_end hp p i (Some t), od')
@@ -318,6 +323,10 @@ Definition valid_timeline (tl : list row) : Prop :=
 (* all events of an output in event_list order *)
 Definition all_events (o : output) : list tevent := concat (o_events o).
 
+(* the row index at which an event ends.  [ev_end] is an option because TemporalEvent.end_index is None
+   until set_end; the default 0 below is never used for an event of a constructed manager: Props
+   C20_every_event_ended proves [ev_end e = Some j] for every listed event, and C20_context_iff_end states
+   the context with that [j] explicitly. *)
 Definition ev_end_index (e : tevent) : nat :=
   match ev_end e with Some j => j | None => 0 end.
 
